@@ -376,7 +376,7 @@ func (g *gen) fuzzLive() Op {
 		case 0:
 			q = append(q, "mount="+blob().digest("sha256"))
 		case 1:
-			q = append(q, "mount="+blob().digest("sha256"), "from="+r.str("nosuch", repo, "a", "a/b"))
+			q = append(q, "mount="+blob().digest("sha256"), "from="+r.str("nosuch", repo, "a", "a/b", "Hidden", "../outside", repo+"/../Hidden"))
 		case 2:
 			q = append(q, "digest-algorithm="+r.str("sha256", "sha512"))
 		case 3:
@@ -496,7 +496,7 @@ func (g *gen) fuzzRaw() Op {
 		case 7:
 			addQ("mount", g.fuzzDigest())
 		case 8:
-			addQ("from", r.str("a", "a/b", "nosuch", "A", "a..b", "", strings.Repeat("f", 300)))
+			addQ("from", r.str("a", "a/b", "nosuch", "A", "a..b", "", strings.Repeat("f", 300), "../outside", "Hidden", "a/../Hidden", "./a", "a//b", "..", "%2e%2e/outside"))
 		case 9:
 			addQ("artifactType", r.str("", "text/plain", "application/vnd.example.sig", strings.Repeat("t", 300)))
 		default:
